@@ -126,6 +126,8 @@ fn crit(c: &Curve2, full: bool) -> Vec<f64> {
             x.push(lens[i] - tol / 2.0);
             x.push(lens[i] + 2.0 * tol);
             x.push(lens[i] - 2.0 * tol);
+            x.push(lens[i] + 100.0 * tol);
+            x.push(lens[i] - 100.0 * tol);
         }
         if i + 1 < lens.len() {
             x.push(0.5 * (lens[i] + lens[i + 1]));
@@ -303,7 +305,7 @@ fn expand(st: &State, depth: usize, l: &mut Local, out: &mut Vec<State>) {
                 continue;
             }
             let (lo, hi) = (a.min(b), a.max(b));
-            for ctl in [0.5 * (lo + hi), 0.5 * (hi + big_l), 0.5 * lo, a, big_l + 0.5] {
+            for ctl in [0.5 * (lo + hi), 0.5 * (hi + big_l), 0.5 * lo, a, big_l + 0.5, 0.0, big_l] {
                 let mk = || serde_json::to_value(Case { state: st.clone(), action: "between_lengths_by_control".into(), args: vec![a, b, ctl] }).unwrap();
                 l.eval();
                 l.transitions += 1;
@@ -520,7 +522,7 @@ pub fn roots(tier: Tier) -> Vec<State> {
 
 pub fn run(tier: Tier) -> i32 {
     let mut cx = Ctx::new("C04", tier, "model_checking");
-    cx.rule = "explicit-state search: initial states = every vertex sequence over the 3x3 lattice up to the length bound x {open, force-closed} x tol {1e-6, 0.05}; actions = between_lengths over all pairs of critical lengths (0, L, vertex lengths, edge mid/quarter points, vertex +-tol/2, +-2tol, beyond L), the control variant, both splits, both trims, reversal; every produced piece is a successor state (canonical key: vertices rounded to 1e-9, tolerance); reference model = arc-length point function by linear scan. distinct = distinct canonical states expanded".into();
+    cx.rule = "explicit-state search: initial states = every vertex sequence over the 3x3 lattice up to the length bound x {open, force-closed} x tol {1e-6, 0.05}; actions = between_lengths over all pairs of critical lengths (0, L, vertex lengths, edge mid/quarter points, vertex +-tol/2, +-2tol, +-100tol, beyond L), the control variant, both splits, both trims, reversal; every produced piece is a successor state (canonical key: vertices rounded to 1e-9, tolerance); reference model = arc-length point function by linear scan. distinct = distinct canonical states expanded".into();
     let depth = 3;
     let max_states = tier.pick(6_000_000, 30_000_000);
     cx.bounds = json!({"root_seq_len": tier.pick(3, 4), "depth": depth, "max_states": max_states, "tols": [1e-6, 0.05]});
